@@ -296,6 +296,11 @@ func FormatList(format cty.Value, vals ...cty.Value) (cty.Value, error) {
 	return FormatListFunc.Call(args)
 }
 
+// formatMaxArgNum is the largest explicit argument index the format string
+// scanner will record; larger indices are treated as this value, which is
+// always beyond the end of the argument list.
+const formatMaxArgNum = 1 << 24
+
 type formatVerb struct {
 	Raw    string
 	Offset int
